@@ -279,3 +279,123 @@ func Clamp(x float64) int {
 	}
 	return int(math.Round(x))
 }
+
+// CmapCodes walks a written cmap table (formats 0, 4, 6 and 12) and returns the character codes
+// which the best Unicode subtable maps to a glyph other than 0.  The subtable is chosen in the
+// order (3,10), (0,4), (3,1), (0,3), (0,*), (1,0).  ok is false when the table cannot be walked.
+func CmapCodes(t []byte) (codes []int, ok bool) {
+	u16 := func(p int) int { return int(t[p])<<8 | int(t[p+1]) }
+	u32 := func(p int) int { return u16(p)<<16 | u16(p+2) }
+	if len(t) < 4 {
+		return nil, false
+	}
+	n := u16(2)
+	if len(t) < 4+8*n {
+		return nil, false
+	}
+	best, bestRank := -1, 99
+	for i := 0; i < n; i++ {
+		pid, eid, off := u16(4+8*i), u16(6+8*i), u32(8+8*i)
+		rank := 99
+		switch {
+		case pid == 3 && eid == 10:
+			rank = 0
+		case pid == 0 && eid == 4:
+			rank = 1
+		case pid == 3 && eid == 1:
+			rank = 2
+		case pid == 0 && eid == 3:
+			rank = 3
+		case pid == 0:
+			rank = 4
+		case pid == 1 && eid == 0:
+			rank = 5
+		}
+		if rank < bestRank && off+4 <= len(t) {
+			best, bestRank = off, rank
+		}
+	}
+	if best < 0 {
+		return nil, false
+	}
+	codes = []int{}
+	p := best
+	switch u16(p) {
+	case 0:
+		if p+262 > len(t) {
+			return nil, false
+		}
+		for c := 0; c < 256; c++ {
+			if t[p+6+c] != 0 {
+				codes = append(codes, c)
+			}
+		}
+	case 4:
+		if p+14 > len(t) {
+			return nil, false
+		}
+		segX2 := u16(p + 6)
+		endP, startP := p+14, p+16+segX2
+		deltaP, rangeP := startP+segX2, startP+2*segX2
+		if rangeP+segX2 > len(t) {
+			return nil, false
+		}
+		for s := 0; s < segX2/2; s++ {
+			end, start := u16(endP+2*s), u16(startP+2*s)
+			delta, ro := u16(deltaP+2*s), u16(rangeP+2*s)
+			for c := start; c <= end && c <= 0xFFFF; c++ {
+				gid := 0
+				if ro == 0 {
+					gid = (c + delta) & 0xFFFF
+				} else {
+					q := rangeP + 2*s + ro + 2*(c-start)
+					if q+2 > len(t) {
+						return nil, false
+					}
+					gid = u16(q)
+					if gid != 0 {
+						gid = (gid + delta) & 0xFFFF
+					}
+				}
+				if gid != 0 {
+					codes = append(codes, c)
+				}
+			}
+		}
+	case 6:
+		if p+10 > len(t) {
+			return nil, false
+		}
+		first, cnt := u16(p+6), u16(p+8)
+		if p+10+2*cnt > len(t) {
+			return nil, false
+		}
+		for i := 0; i < cnt; i++ {
+			if u16(p+10+2*i) != 0 {
+				codes = append(codes, first+i)
+			}
+		}
+	case 12:
+		if p+16 > len(t) {
+			return nil, false
+		}
+		ng := u32(p + 12)
+		if ng < 0 || p+16+12*ng > len(t) {
+			return nil, false
+		}
+		for g := 0; g < ng; g++ {
+			start, end, gid := u32(p+16+12*g), u32(p+20+12*g), u32(p+24+12*g)
+			if end-start > 70000 {
+				return nil, false
+			}
+			for c := start; c <= end; c++ {
+				if gid+(c-start) != 0 {
+					codes = append(codes, c)
+				}
+			}
+		}
+	default:
+		return nil, false
+	}
+	return codes, true
+}
